@@ -36,7 +36,7 @@ func runC13(c *Ctx) {
 	c13R1(c)
 	c13R2(c)
 	c13Seek(c)
-	c.NotArmed("C13.R3", "routing agreement (blobStore(desc) dispatch, media-type constant sets): P2, not implemented in this round")
+	c13R3(c)
 	c13R4(c)
 }
 
@@ -781,6 +781,291 @@ func c13Generator(c *Ctx, RL, RG, RP string, g, V *ssa.Function) {
 	}
 }
 
+// ---------- R3 routing agreement ----------
+
+func c13IsStrSlice(t types.Type) bool {
+	sl, ok := types.Unalias(t).Underlying().(*types.Slice)
+	return ok && types.Identical(sl.Elem(), types.Typ[types.String])
+}
+
+// c13ConsultedLists: the []string values of fn whose elements are compared
+// with a descriptor's MediaType: ranged slices whose element is compared, and
+// first arguments of slices.Contains(list, desc.MediaType).
+func c13ConsultedLists(fn *ssa.Function) []ssa.Value {
+	mt := c13FieldLoads(fn, c13PkgOCI, "Descriptor", "MediaType", nil)
+	var out []ssa.Value
+	for _, call := range Calls(fn, func(n string) bool { return n == "slices.Contains" }) {
+		if a := call.Common().Args; len(a) == 2 && mt[a[1]] && c13IsStrSlice(a[0].Type()) {
+			out = append(out, a[0])
+		}
+	}
+	for _, l := range Loops(fn) {
+		ranged, idx, _, _, ok := l.RangeIndex()
+		if !ok || !c13IsStrSlice(ranged.Type()) {
+			continue
+		}
+		// element loads of this loop compared with the media type
+		compared := false
+		AllInstrs(fn, func(in ssa.Instruction) {
+			bo, isBin := in.(*ssa.BinOp)
+			if !isBin || (bo.Op != token.EQL && bo.Op != token.NEQ) || !l.Contains(bo) {
+				return
+			}
+			for _, pair := range [][2]ssa.Value{{bo.X, bo.Y}, {bo.Y, bo.X}} {
+				if !mt[pair[0]] {
+					continue
+				}
+				for _, r := range Roots(pair[1]) {
+					if ld, isLoad := r.(*ssa.UnOp); isLoad {
+						if ia, isIA := ld.X.(*ssa.IndexAddr); isIA && ia.X == ranged {
+							compared = true
+						}
+					}
+				}
+			}
+		})
+		_ = idx
+		if compared {
+			out = append(out, ranged)
+		}
+	}
+	return out
+}
+
+// c13ListsFromOption: every consulted list of fn is the option (a value of
+// opt) or a package-level default used only behind len(option) == 0, and the
+// option itself is consulted.  "" when fine, else the reason.
+func c13ListsFromOption(fn *ssa.Function, opt map[ssa.Value]bool) string {
+	lists := c13ConsultedLists(fn)
+	if len(lists) == 0 {
+		return "no media-type list is consulted"
+	}
+	empty := c13FactEdgesOfConds(fn, c13EmptyStringClass(opt)) // len(opt) == 0 edges (the class handles len(x) tests)
+	sawOpt, sawDefault := false, false
+	for _, l := range lists {
+		for _, lf := range c13Leaves(l) {
+			v := strip(lf.Val)
+			if opt[v] || opt[lf.Val] {
+				sawOpt = true
+				continue
+			}
+			if ld, ok := v.(*ssa.UnOp); ok && ld.Op == token.MUL {
+				if _, isG := ld.X.(*ssa.Global); isG {
+					sawDefault = true
+					// the default only where the option is empty
+					var at ssa.Instruction
+					if in, isInstr := l.(ssa.Instruction); isInstr {
+						at = in
+					}
+					if at == nil {
+						at = fn.Blocks[0].Instrs[0]
+					}
+					if len(lf.Edges) > 0 {
+						if c13ChainReach(fn.Blocks[0], 0, lf.Edges, lf.Edges[0].To.Instrs[0], newCut().Edges(empty...)) {
+							return "the default media-type list is consulted although the option is not empty"
+						}
+					} else if reach(fn.Blocks[0], 0, ld, newCut().Edges(empty...)) {
+						return "the default media-type list is consulted although the option is not empty"
+					}
+					continue
+				}
+			}
+			return "a media-type list other than the option or the package default is consulted (" + describe(v) + ")"
+		}
+	}
+	if !sawOpt {
+		return "the ManifestMediaTypes option is never consulted"
+	}
+	if !sawDefault {
+		return "no default list is consulted when the option is empty"
+	}
+	return ""
+}
+
+func c13R3(c *Ctx) {
+	const R3 = "C13.R3.routing-agreement"
+	c.Expect(R3, 7)
+	repoT := c.P.Named(c13PkgRemote, "Repository")
+	if repoT == nil {
+		c.LostAnchor(R3, "~/registry/remote.Repository")
+		return
+	}
+	// the selector by role: method of *Repository taking a Descriptor, returning registry.BlobStore
+	var sels []*ssa.Function
+	for _, f := range c.P.FuncsOfPkg(c13PkgRemote) {
+		if f.Parent() != nil || f.Signature.Recv() == nil || !c13IsNamed(f.Signature.Recv().Type(), c13PkgRemote, "Repository") {
+			continue
+		}
+		ps := f.Signature.Params()
+		if ps.Len() == 1 && c13IsNamed(ps.At(0).Type(), c13PkgOCI, "Descriptor") && c13ResultsAre(f, [2]string{"registry", "BlobStore"}) {
+			sels = append(sels, f)
+		}
+	}
+	if len(sels) != 1 {
+		c.LostAnchor(R3, fmt.Sprintf("store selector func (r *Repository)(Descriptor) registry.BlobStore (found %d)", len(sels)))
+		return
+	}
+	S := sels[0]
+	sn := FnName(S)
+	recv := Aliases(S.Params[0])
+	optLoads := func(fn *ssa.Function, base func(ssa.Value) bool) map[ssa.Value]bool {
+		return c13FieldLoads(fn, c13PkgRemote, "Repository", "ManifestMediaTypes", base)
+	}
+	opt := optLoads(S, func(b ssa.Value) bool { return recv[b] })
+	// (a) the selector decides by the option: inline, or through a predicate handed the option
+	why := ""
+	var decide []Edge // edges on which the predicate said "manifest"
+	var defaultsUsed []*ssa.Global
+	collectDefaults := func(fn *ssa.Function) {
+		for _, l := range c13ConsultedLists(fn) {
+			for _, lf := range c13Leaves(l) {
+				if ld, ok := strip(lf.Val).(*ssa.UnOp); ok {
+					if g, isG := ld.X.(*ssa.Global); isG {
+						defaultsUsed = append(defaultsUsed, g)
+					}
+				}
+			}
+		}
+	}
+	if len(c13ConsultedLists(S)) > 0 {
+		why = c13ListsFromOption(S, opt)
+		collectDefaults(S)
+	} else {
+		why = "the selector consults no media-type list derived from the ManifestMediaTypes option"
+		for _, ci := range Calls(S, func(string) bool { return true }) {
+			call, isCall := ci.(*ssa.Call)
+			P := StaticCallee(ci)
+			if !isCall || P == nil || !inModule(P) || len(P.Blocks) == 0 || !c13ResultsAre(P, [2]string{"", "bool"}) && !(P.Signature.Results().Len() == 1 && types.Identical(P.Signature.Results().At(0).Type(), types.Typ[types.Bool])) {
+				continue
+			}
+			hasDesc := false
+			for _, a := range call.Call.Args {
+				if c13IsNamed(a.Type(), c13PkgOCI, "Descriptor") {
+					hasDesc = true
+				}
+			}
+			if !hasDesc {
+				continue
+			}
+			why = "the predicate " + FnName(P) + " the selector decides by is not given the ManifestMediaTypes option"
+			for i, a := range call.Call.Args {
+				if !opt[a] || i >= len(P.Params) {
+					continue
+				}
+				why = c13ListsFromOption(P, Aliases(P.Params[i]))
+				if why != "" {
+					why = FnName(P) + ": " + why
+				}
+				collectDefaults(P)
+				te, _ := BoolTests(S, Aliases(call))
+				decide = append(decide, te...)
+			}
+		}
+	}
+	c.Check(R3, sn+"|selector-decides-by-option", S.Pos(), why == "", ifelse(why == "", "manifest or blob store is chosen by the ManifestMediaTypes option, falling back to the package default exactly when it is empty", why+": content pushed through Push/Fetch/Exists/Delete and content addressed by Tag/Resolve/FetchReference can end up in different stores"))
+	// (b) both stores are reachable from the decision
+	man, blob := false, false
+	for _, a := range RetAtoms(S, 0) {
+		for _, r := range Roots(a.Val) {
+			if call, ok := r.(*ssa.Call); ok {
+				switch CalleeName(call) {
+				case "(*~/registry/remote.Repository).Manifests":
+					man = true
+					if len(decide) > 0 && c13AtomReach(S.Blocks[0], 0, a, newCut().Edges(decide...)) {
+						man = false
+					}
+				case "(*~/registry/remote.Repository).Blobs":
+					blob = true
+				}
+			}
+		}
+	}
+	c.Check(R3, sn+"|selects-both-stores", S.Pos(), man && blob, ifelse(man && blob, "the manifest store is returned on the predicate's true edge, the blob store otherwise", "the selector does not return the manifest store exactly on the predicate's true edge and the blob store otherwise"))
+	// (c) the content operations dispatch through the selector with their own descriptor
+	for _, name := range []string{"Fetch", "Push", "Exists", "Delete"} {
+		m := c.P.Fn(c13PkgRemote, "Repository."+name)
+		if m == nil {
+			c.LostAnchor(R3, "~/registry/remote.Repository."+name)
+			continue
+		}
+		ok := false
+		for _, ci := range Calls(m, func(string) bool { return true }) {
+			if !ci.Common().IsInvoke() || ci.Common().Method.Name() != name {
+				continue
+			}
+			for _, r := range Roots(ci.Common().Value) {
+				sc, isCall := r.(*ssa.Call)
+				if !isCall || StaticCallee(sc) != S {
+					continue
+				}
+				for _, p := range m.Params {
+					if c13IsNamed(p.Type(), c13PkgOCI, "Descriptor") && (c15SameStruct(sc.Call.Args[1], p) || sc.Call.Args[1] == ssa.Value(p)) {
+						ok = true
+					}
+				}
+			}
+		}
+		c.Check(R3, FnName(m)+"|dispatches-through-selector", m.Pos(), ok, ifelse(ok, "the operation runs on the store the selector picks for its own descriptor", "the operation does not run on the store chosen by the selector for its descriptor"))
+	}
+	// (d) the Accept header of reference operations is built from the same option with the same default list
+	accs := c13FuncsWhere(c.P, c13PkgRemote, func(f *ssa.Function) bool {
+		ps, rs := f.Signature.Params(), f.Signature.Results()
+		return f.Parent() == nil && f.Signature.Recv() == nil && ps.Len() == 1 && c13IsStrSlice(ps.At(0).Type()) && rs.Len() == 1 && types.Identical(rs.At(0).Type(), types.Typ[types.String])
+	})
+	okAcc, whyAcc := len(accs) > 0, "no Accept-header builder func([]string) string found"
+	nCalls := 0
+	for _, A := range accs {
+		for _, f := range c.P.FuncsOfPkg(c13PkgRemote) {
+			for _, call := range c13CallsToFn(f, A) {
+				nCalls++
+				if !optLoads(f, nil)[call.Common().Args[0]] {
+					okAcc, whyAcc = false, FnName(f)+" builds the Accept header from something other than the ManifestMediaTypes option"
+				}
+			}
+		}
+		// the default used when the option is empty is the join of the selector's default list
+		for _, a := range RetAtoms(A, 0) {
+			ld, isLoad := strip(a.Val).(*ssa.UnOp)
+			if !isLoad {
+				continue
+			}
+			g, isG := ld.X.(*ssa.Global)
+			if !isG {
+				continue
+			}
+			joined := false
+			if initFn := g.Pkg.Func("init"); initFn != nil {
+				AllInstrs(initFn, func(in ssa.Instruction) {
+					st, ok := in.(*ssa.Store)
+					if !ok || st.Addr != ssa.Value(g) {
+						return
+					}
+					for _, r := range Roots(st.Val) {
+						if jc, ok := r.(*ssa.Call); ok && CalleeName(jc) == "strings.Join" {
+							for _, lr := range Roots(jc.Call.Args[0]) {
+								if l2, ok := lr.(*ssa.UnOp); ok {
+									for _, d := range defaultsUsed {
+										if l2.X == ssa.Value(d) {
+											joined = true
+										}
+									}
+								}
+							}
+						}
+					}
+				})
+			}
+			if !joined {
+				okAcc, whyAcc = false, "the default Accept header is not the join of the default media-type list the selector falls back to"
+			}
+		}
+	}
+	if nCalls == 0 {
+		okAcc, whyAcc = false, "the Accept-header builder is never called"
+	}
+	c.Check(R3, sn+"|accept-header-from-same-lists", S.Pos(), okAcc, ifelse(okAcc, "manifest requests advertise the same option / default list the selector routes by", whyAcc))
+}
+
 // ---------- R4 request construction ----------
 
 // c13IsURLBuilder: function of registry/remote (url.go) that renders a URL:
@@ -1183,7 +1468,7 @@ func c13ExchangeFnOf(f *ssa.Function, depth int) (E *ssa.Function, top []ssa.Cal
 
 func c13Seek(c *Ctx) {
 	const RS = "C13.R2.seek"
-	c.Expect(RS, 6)
+	c.Expect(RS, 7)
 	// role: the type returned by httputil.NewReadSeekCloser
 	ctor := c.P.Fn("internal/httputil", "NewReadSeekCloser")
 	if ctor == nil {
@@ -1293,6 +1578,61 @@ func c13Seek(c *Ctx) {
 		}
 	}
 	c.Check(RS, FnName(seek)+"|Range-header", site.Pos(), hasRange, "req.Header.Set(\"Range\", …) precedes the exchange on every path")
+	// the reader's state changes only after the range request succeeded: on a path that issues the request no
+	// receiver field is stored (and no field-held body closed) before it, and stores after it lie behind its success
+	stateOK, stateWhy := true, ""
+	checkState := func(fn *ssa.Function, req ssa.Instruction, after *cut, what string) {
+		recvAl := Aliases(fn.Params[0])
+		fieldVal := map[ssa.Value]bool{}
+		AllInstrs(fn, func(in ssa.Instruction) {
+			if ld, ok := in.(*ssa.UnOp); ok && ld.Op == token.MUL {
+				if fa, ok := ld.X.(*ssa.FieldAddr); ok && recvAl[fa.X] {
+					fieldVal[ld] = true
+				}
+			}
+		})
+		AllInstrs(fn, func(in ssa.Instruction) {
+			isState := false
+			switch u := in.(type) {
+			case *ssa.Store:
+				if fa, ok := u.Addr.(*ssa.FieldAddr); ok && recvAl[fa.X] {
+					isState = true
+				}
+			case *ssa.Call:
+				if u.Call.IsInvoke() && u.Call.Method.Name() == "Close" && fieldVal[u.Call.Value] {
+					isState = true
+				}
+			}
+			if !isState {
+				return
+			}
+			if reach(in.Block(), instrIndex(in)+1, req, nil) {
+				stateOK, stateWhy = false, fmt.Sprintf("%s changes the reader's state at %s before the range request: if the request then fails, the reader is left at the new offset with no body (a retried Seek succeeds without a request and reads return nothing)", FnName(fn), c.P.Pos(in.Pos()))
+				return
+			}
+			if after != nil && reach(req.Block(), instrIndex(req)+1, in, after) {
+				stateOK, stateWhy = false, fmt.Sprintf("%s changes the reader's state at %s after the range request without %s", FnName(fn), c.P.Pos(in.Pos()), what)
+			}
+		})
+	}
+	var nilReq []Edge
+	if e := ErrOf(site); e != nil {
+		nilReq, _, _ = NilTests(E, Aliases(e))
+	}
+	if len(E.Params) > 0 && c13IsNamed(E.Params[0].Type(), pkg, tn) {
+		checkState(E, site.(ssa.Instruction), newCut().Edges(nilReq...), "its error having been found nil")
+		checkState(E, site.(ssa.Instruction), cut206, "the status having been found 206")
+	}
+	if E != seek {
+		for _, tc := range top {
+			var nilTop []Edge
+			if e := ErrOf(tc); e != nil {
+				nilTop, _, _ = NilTests(seek, Aliases(e))
+			}
+			checkState(seek, tc.(ssa.Instruction), newCut().Edges(nilTop...), "the request helper's error having been found nil")
+		}
+	}
+	c.Check(RS, FnName(seek)+"|state-only-after-success", site.Pos(), stateOK, ifelse(stateOK, "no field of the reader is stored before the range request on a path that issues it; stores after it lie behind error == nil and status 206", stateWhy))
 	// offset recorded on every success path that changes position
 	recv := seek.Params[0]
 	recvAl := Aliases(recv)
@@ -1375,6 +1715,16 @@ func c13Seek(c *Ctx) {
 }
 
 var c13Mutants = []Mutant{
+	{Name: "selector-ignores-option", File: "registry/remote/repository.go",
+		Old: "\tif isManifest(r.ManifestMediaTypes, desc) {", New: "\tif isManifest(nil, desc) {", Expect: "C13.R3"},
+	{Name: "default-list-always-consulted", File: "registry/remote/manifest.go",
+		Old: "\tif len(manifestMediaTypes) == 0 {\n\t\tmanifestMediaTypes = defaultManifestMediaTypes\n\t}", New: "\tif len(manifestMediaTypes) == 0 || desc.MediaType != \"\" {\n\t\tmanifestMediaTypes = defaultManifestMediaTypes\n\t}", Expect: "C13.R3"},
+	{Name: "exists-bypasses-selector", File: "registry/remote/repository.go",
+		Old: "\treturn r.blobStore(target).Exists(ctx, target)", New: "\treturn r.Blobs().Exists(ctx, target)", Expect: "C13.R3"},
+	{Name: "seek-state-before-request", File: "internal/httputil/seek.go",
+		Old:    "\tif offset >= rsc.size {\n\t\trsc.rc.Close()\n\t\trsc.rc = http.NoBody\n\t\trsc.offset = offset\n\t\treturn offset, nil\n\t}",
+		New:    "\trsc.rc.Close()\n\trsc.rc = http.NoBody\n\trsc.offset = offset\n\tif offset >= rsc.size {\n\t\treturn offset, nil\n\t}",
+		Expect: "C13.R2.seek"},
 	{Name: "seekable-size-from-content-length", File: "registry/remote/repository.go",
 		Old:    "\t\t\treturn desc, httputil.NewReadSeekCloser(s.repo.client(), req, resp.Body, desc.Size), nil",
 		New:    "\t\t\treturn desc, httputil.NewReadSeekCloser(s.repo.client(), req, resp.Body, resp.ContentLength), nil",
